@@ -172,4 +172,20 @@ def LayoutOk : Bool → List (List Char × Piece) → Prop
   | _, [] => True
   | first, (w, p) :: rest => allSpace w = true ∧ (first = true ∨ w ≠ []) ∧ p.ok ∧ LayoutOk false rest
 
+/-! ### Unterminated statements -/
+
+/-- Brace depth at the end of a template: a backslash hides the next character (`esc`), a `}` outside
+    any statement is ordinary text. -/
+def braceDepth : Bool → Nat → List Char → Nat
+  | _, d, [] => d
+  | true, d, _ :: rest => braceDepth false d rest
+  | false, d, c :: rest =>
+    if c = '\\' then braceDepth true d rest
+    else if c = '{' then braceDepth false (d + 1) rest
+    else if c = '}' then braceDepth false (d - 1) rest
+    else braceDepth false d rest
+
+/-- Some `{` is never closed. -/
+def Unterminated (t : List Char) : Prop := braceDepth false 0 t ≠ 0
+
 end Rare.C09
